@@ -3,7 +3,7 @@ import inspect
 import operator
 import os
 import posixpath
-from urllib.parse import quote, urljoin, urlparse, urlunparse
+from urllib.parse import quote, urlparse, urlunparse
 import warnings
 from webob.acceptparse import Accept
 from zope.interface import Interface, implementedBy, implementer
@@ -2198,7 +2198,9 @@ class StaticURLInfo:
                             parsed._replace(scheme=request.scheme)
                         )
                     subpath = quote(subpath)
-                    result = urljoin(url, subpath)
+                    # ``url`` ends with a slash (see ``add``); appending keeps the
+                    # registered URL whatever the sub-path looks like
+                    result = url + subpath
                     return result + qs + anchor
 
         raise ValueError('No static URL definition matching %s' % path)
